@@ -3,6 +3,7 @@ import SvModel.Core.Peg
 import SvModel.Gen.Grammar
 import SvModel.Gen.Names
 import SvModel.Lemmas.Walker
+import SvModel.Lemmas.SkipChain
 import SvModel.Core.Pp
 import SvModel.Gen.PpKinds
 /-!
@@ -123,6 +124,16 @@ def doPlain (hex : String) : String :=
   let st0 : PState := {}
   match eval grammar inp (fuelFor inp) (.allConsuming (.call idx_preprocessor_text)) 0 {} st0.init with
   | (.ok _ _ ts, _) => if plainTreeb ppKinds ts then "plain" else "not-plain"
+  | (.err _, _) => "reject"
+  | (.oof, _) => "oof"
+
+/-- hypotheses of `C04_dead_subtrees_reached_clean` on the preprocessor's parse of the text: `leafy` (every `define / usage / position node
+    carries a token), plus `+include` when the forest has an `include node (then the theorem applies to runs with ignore_include only) -/
+def doGood (hex : String) : String :=
+  let inp := unhex hex
+  let st0 : PState := {}
+  match eval grammar inp (fuelFor inp) (.allConsuming (.call idx_preprocessor_text)) 0 {} st0.init with
+  | (.ok _ _ ts, _) => if goodLeafyb ppKinds ts then "leafy" else "not-leafy"
   | (.err _, _) => "reject"
   | (.oof, _) => "oof"
 
@@ -346,6 +357,8 @@ def step (line : String) : String :=
   | ["parsev", start, cap] => doParse true start cap ""
   | ["plain", hex] => doPlain hex
   | ["plain"] => doPlain ""
+  | ["good", hex] => doGood hex
+  | ["good"] => doGood ""
   | ["parseh", start, cap, hex] => doParseH start cap hex
   | ["parseh", start, cap] => doParseH start cap ""
   | ["parsem", start, cap, hex] => doParseM start cap hex
